@@ -1867,6 +1867,36 @@ class Evaluator:
     def subscript(self, base: Val, sl, st, node) -> Val:
         return self.subscript_val(base, None, st, node, sl)
 
+    def _cat_tail_element(self, ct: Term, i: Rat) -> Optional[Val]:
+        """read of a concatenation at an index that lies in its last part, as far as the lower bounds of the active range loops tell: with the loop variable
+        k >= lo, an index off + (k - lo) + c (c >= 0) is element (k - lo) + c of the last part (reads past the end are IndexErrors, not modelled)"""
+        parts = list(ct.args)
+        if len(parts) < 2:
+            return None
+        off = C(0)
+        for part in parts[:-1]:
+            ln = C(1) if (isinstance(part, Num) and part.length is None) else (C(len(part.items)) if isinstance(part, Tup) else _len_of(part))
+            if ln is None:
+                return None
+            off = off + ln
+        last = parts[-1]
+        last = last if isinstance(last, Num) else (self.as_num(last, True) if isinstance(last, Term) else None)
+        if last is None or last.length is None:
+            return None
+        d = i - off
+        low = d
+        for lc in self.loops:
+            if lc.kind == 'range' and lc.sym is not None and lc.lo is not None:
+                at = _single_atom(lc.sym)
+                if at in set(sym.all_atoms(low)):
+                    coef = low - sym.subst(low, {at: lc.sym - C(1)})       # d is linear in k with this slope, if constant
+                    if not (coef.is_const() and coef.const_value() > 0):
+                        return None
+                    low = sym.subst(low, {at: lc.lo})
+        if low.is_const() and low.const_value() >= 0 and not (d.is_const() and d.const_value() < 0):
+            return last.at(d)
+        return None
+
     def subscript_val(self, base: Val, idx: Optional[Val], st, node, sl=None) -> Val:
         if isinstance(base, Obj):
             m = self.prog.find_method(base.cls, '__getitem__')
@@ -1903,6 +1933,11 @@ class Evaluator:
             if key is not None and base.rest is None:
                 raise _PyRaise('KeyError')
             return Term('item', (base, idx))
+        ct = arr_identity(base) if isinstance(base, Num) else base
+        if isinstance(ct, Term) and ct.head == 'cat' and isinstance(idx, Num) and idx.length is None:
+            hit = self._cat_tail_element(ct, idx.r)
+            if hit is not None:
+                return hit
         nb = base if isinstance(base, Num) else None
         if nb is None and isinstance(base, Term) and base.kind in ('ndarray', 'list'):
             nb = term_as_num(base, True, base.kind)
@@ -1930,6 +1965,15 @@ class Evaluator:
                         h = nb.length if isinstance(hi, Const) else (nb.length + hi.r if neg_const_index(hi.r) else hi.r)
                         r = sym.subst(nb.r, {sym.idx_atom(): sym.idx() + l})
                         return Num(r, h - l, nb.kind)
+                if isinstance(step, Num) and step.length is None and not (step.is_const() and step.const() <= 0) and isinstance(hi, Const) and hi.v is None \
+                        and (isinstance(lo, Const) or (isinstance(lo, Num) and lo.length is None and not neg_const_index(lo.r))):
+                    # a[lo::step] with a (positive) step: element i is a[lo + step*i]; ceil((len - lo) / step) elements
+                    l = C(0) if isinstance(lo, Const) else lo.r
+                    r = sym.subst(nb.r, {sym.idx_atom(): l + step.r * sym.idx()})
+                    cnt = sym.A('FloorDiv', nb.length - l - C(1), step.r) + C(1)
+                    out_ = Num(r, cnt, nb.kind)
+                    out_.dt = getattr(nb, 'dt', None)
+                    return out_
                 return term_as_num(Term('slice_of', (nb, idx), kind=nb.kind), True, nb.kind)
             if isinstance(idx, Tup):
                 if len(idx.items) == 2:
